@@ -147,7 +147,7 @@ func run(c *hl.Ctx) error {
 	g := &lay.Gen{R: r}
 	// (b) extraction round trips: cheap (no layout)
 	nestProfiles := []string{"core", "core", "nested", "grid", "near", "names", "styled"}
-	for i, n := 0, c.Pick(1500, 60000); i < n; i++ {
+	for i, n := 0, c.Pick(2500, 60000); i < n; i++ {
 		p := nestProfiles[i%len(nestProfiles)]
 		cs := nestCase(g.Program(p), r.Intn(1000), r.Intn(3) == 0)
 		c.Emit(cs)
@@ -159,7 +159,7 @@ func run(c *hl.Ctx) error {
 	}
 	// (a) full layouts
 	var jobs []lay.Job
-	nProg := lay.DevN(c.Pick(500, 8000))
+	nProg := lay.DevN(c.Pick(700, 8000))
 	weights := []string{"nested", "nested", "nested", "grid", "grid", "seq", "seq", "near", "near", "core", "styled", "boards"}
 	for i := 0; i < nProg; i++ {
 		p := weights[i%len(weights)]
